@@ -259,14 +259,20 @@ def check_program(res: Res, p: dict, rng: random.Random) -> None:
             res.violate("rename-changes-output", f"renaming {n} changes label values", dict(wit, twin_src=src1, renamed=n))
             return
     # twin 1b: a macro parameter is a name local to the application: renaming it in the definition changes nothing
-    macros = [st for st, _, _ in walk(p["prog"]) if st["k"] == "macro" and st["ps"]]
+    # (a code-block argument is expanded inside the application, so its names may legitimately meet the parameters:
+    #  macros that splice blocks are not renamed)
+    macros = [st for st, _, _ in walk(p["prog"]) if st["k"] == "macro" and st["ps"] and not any(x["k"] == "splice" for x, _, _ in walk(st["b"]))]
     if macros:
         from vf.gen.twins import rename as rename_stmts
 
         mdef = rng.choice(macros)
         pname = rng.choice(mdef["ps"])
         redefined = any(st["k"] in ("label", "assign", "sym") and st["n"] == pname or st["k"] == "for" and st["v"] == pname for st, _, _ in walk(mdef["b"]))
-        if not redefined:
+        # a parameter whose argument is only known later falls back, where a value is needed early, to an outer definition
+        # of the same name: such a name is not local in the sense of the property, so only unique names are renamed
+        elsewhere = any((st["k"] in ("label", "assign", "sym") and st["n"] == pname) or (st["k"] == "for" and st["v"] == pname) or
+                        (st["k"] == "macro" and st is not mdef and pname in st["ps"]) for st, _, _ in walk(p["prog"]))
+        if not redefined and not elsewhere:
             new = pname + "_rp"
 
             def swap(stmts):
